@@ -30,9 +30,12 @@ package main
 //@ at call ClearSessionCookie assert[clear-only-on-deny] (called(Validator) && !ret(Validator)) || !ret0(Authorize)
 
 //@ func (*OAuthProxy).Proxy
-//@ prop C01
+//@ prop C01 C07
 //@ at call ServeHTTP assert[upstream-only-if-authenticated] ret1(getAuthenticatedSession) == nil
 //@     && recv(ServeHTTP) == ret(Then) && arg(Then, 1) == p.upstreamProxy
+//@ at call ServeHTTP assert[upstream-only-behind-the-headers-chain] recv(ServeHTTP) == ret(Then) && arg(Then, 0) == p.headersChain
+//@     && arg(Then, 1) == p.upstreamProxy && arg(ServeHTTP, 0) == rw && arg(ServeHTTP, 1) == req
+//@ prop C01
 //@ ensures[served] ret1(getAuthenticatedSession) == nil ==> called(ServeHTTP)
 //@ ensures[denied-gets-prompt-or-error] ret1(getAuthenticatedSession) != nil ==>
 //@     called(errorJSON) || called(doOAuthStart) || called(SignInPage) || called(ErrorPage)
